@@ -116,6 +116,15 @@ structure GClass where
   defaultInitArgs : AList (Option Val) := []  -- map[string]slip.Object (forms)
 deriving Repr
 
+/-- `*StandardObject`: the instance's own slots (`none` = slip.Unbound); its class object
+    (`obj.Type`) is a context parameter of the translated methods -/
+structure GObj where
+  vars : AList (Option Val) := []
+deriving Repr
+
+/-- the Lisp object nil as a slot value (the harness writes it -1) -/
+def nilVal : Val := -1
+
 /-- the class table of the package, in some order -/
 abbrev Heap := List GClass
 
